@@ -182,7 +182,7 @@ def parseTypeSpecBody (r : Tbl) : P TypeSpec := do
   | .literal .Ident => do
     let start2 ← preback
     let mut x : Expression := .Ident (← identifier)
-    if !(← currentIs Operator.BarackRight) then
+    if !(← currentIs Operator.BarackRight) && !(← currentIs Operator.BarackLeft) then
       incExprLevel
       let p ← r.primaryExpression (some x)
       x ← r.binaryExpression (some p) 0
@@ -230,7 +230,7 @@ def parseConstSpecBody (r : Tbl) (index : Nat) : P ConstSpec := do
   let mut values : List Expression := []
   if ← skipped Operator.Assign then
     values ← r.expressionList
-  else if ← currentIs LitKind.Ident then
+  else if !((← current).isNone || (← currentIs Operator.SemiColon) || (← currentIs Operator.ParenRight)) then
     typ := some (← r.type_)
     let _ ← expect Operator.Assign "parse_const_spec"
     values ← r.expressionList
@@ -252,9 +252,19 @@ def parseTypeListBody (r : Tbl) : P (List Expression) := do
   let first ← r.type_
   commaList r.type_ (← loopFuel) [first]
 
+/-- parser.rs `type_or_blank`: a type, or the blank identifier where a type is required -/
+def typeOrBlank (r : Tbl) : P (Option Expression) := do
+  match ← r.typeOrNone with
+  | none =>
+    match ← current with
+    | some (_, .literal .Ident name) =>
+      if name = ['_'] then do return some (← r.qualifiedIdent none) else return none
+    | _ => return none
+  | typ => return typ
+
 def typeBody (r : Tbl) : P Expression := do
   incExprLevel
-  match ← r.typeOrNone with
+  match ← typeOrBlank r with
   | some typ => do decExprLevel; pure typ
   | none => elseError "expect a type representation" "type_"
 
@@ -263,12 +273,12 @@ def typeListBody (r : Tbl) (strict : Bool) : P (Expression × Bool) := do
   let expr ← if strict then r.type_ else r.expression
   let comma ← skipped Operator.Comma
   if comma then
-    if let some typ ← r.typeOrNone then
+    if let some typ ← typeOrBlank r then
       let rec go : Nat → List Expression → P (List Expression)
         | 0, _ => throw .fuel
         | fuel+1, acc => do
           if ← skipped Operator.Comma then
-            match ← r.typeOrNone with
+            match ← typeOrBlank r with
             | some t => go fuel (acc ++ [t])
             | none => pure acc
           else pure acc
